@@ -105,7 +105,9 @@ fn snap<L: Lab, D: Data<Elem = f64>, T: AsTargets<Elem = L> + CountsOf<L>>(ds: &
         ix1,
         recs: r.rows().into_iter().map(|row| row.iter().map(|x| *x as u64).collect()).collect(),
         tg,
-        w: ds.weights().map(|w| w.iter().map(|x| *x as u64).collect()).unwrap_or_default(),
+        // `weights()` hands out a slice; a weight array assigned to the public field in a non-contiguous
+        // layout (lay.w = 5) has none, it is read from the field
+        w: if ds.weights.is_standard_layout() { ds.weights().map(|w| w.iter().map(|x| *x as u64).collect()).unwrap_or_default() } else { ds.weights.iter().map(|x| *x as u64).collect() },
         fnames: ds.feature_names().to_vec(),
         tnames: ds.target_names().to_vec(),
         counts: ds.targets().counts_of().map(|cs| {
@@ -179,6 +181,8 @@ enum StAny {
 /// 3 = every second row and column of a larger allocation (strided, not contiguous),
 /// 4 = rows stored in reverse order (negative stride).  Cells outside the array proper hold fillers
 /// that belong to no sample, so an operation that reads the raw buffer shows up in the tags.
+/// Weights: 0, 2, 3, 4 as above, handed to `with_weights`; 5 = the strided array of 3 assigned to the
+/// public field `weights` (no constructor in between).
 #[derive(Clone, Copy, Debug, PartialEq)]
 struct Lay {
     r: u8,
@@ -217,23 +221,33 @@ fn build<L: Lab>(s: &Snap, lay: Lay) -> St<L> {
     let cells: Vec<Vec<f64>> = s.recs.iter().map(|r| r.iter().map(|x| *x as f64).collect()).collect();
     let recs = arr2(s.n, s.p, &cells, lay.r, 7777.0);
     debug_assert_eq!(recs.dim(), (s.n, s.p));
-    // `weights()` needs a contiguous weight array: own buffer or a slice of a larger one
-    let w = arr1(&s.w.iter().map(|x| *x as f32).collect::<Vec<f32>>(), if lay.w == 2 { 2 } else { 0 }, 5555.0);
+    let w = arr1(&s.w.iter().map(|x| *x as f32).collect::<Vec<f32>>(), if lay.w == 5 { 3 } else { lay.w }, 5555.0);
+    let by_field = lay.w == 5;
+    let (w, wf) = if by_field { (Array1::zeros(0), Some(w)) } else { (w, None) };
+    macro_rules! fin {
+        ($d:expr) => {{
+            let mut d_ = $d;
+            if let Some(x) = wf {
+                d_.weights = x;
+            }
+            d_
+        }};
+    }
     if s.ix1 {
         let flat: Vec<L> = s.tg.iter().flatten().map(|c| L::from_code(*c)).collect();
         let tg = arr1(&flat, lay.t, L::from_code(0));
         if s.counts.is_some() {
-            St::C1(DatasetBase::new(recs, CountedTargets::new(tg)).with_weights(w).with_feature_names(s.fnames.clone()).with_target_names(s.tnames.clone()))
+            St::C1(fin!(DatasetBase::new(recs, CountedTargets::new(tg)).with_weights(w).with_feature_names(s.fnames.clone()).with_target_names(s.tnames.clone())))
         } else {
-            St::P1(Dataset::new(recs, tg).with_weights(w).with_feature_names(s.fnames.clone()).with_target_names(s.tnames.clone()))
+            St::P1(fin!(Dataset::new(recs, tg).with_weights(w).with_feature_names(s.fnames.clone()).with_target_names(s.tnames.clone())))
         }
     } else {
         let labs: Vec<Vec<L>> = s.tg.iter().map(|r| r.iter().map(|c| L::from_code(*c)).collect()).collect();
         let tg = arr2(s.n, s.t, &labs, lay.t, L::from_code(0));
         if s.counts.is_some() {
-            St::C2(DatasetBase::new(recs, CountedTargets::new(tg)).with_weights(w).with_feature_names(s.fnames.clone()).with_target_names(s.tnames.clone()))
+            St::C2(fin!(DatasetBase::new(recs, CountedTargets::new(tg)).with_weights(w).with_feature_names(s.fnames.clone()).with_target_names(s.tnames.clone())))
         } else {
-            St::P2(Dataset::new(recs, tg).with_weights(w).with_feature_names(s.fnames.clone()).with_target_names(s.tnames.clone()))
+            St::P2(fin!(Dataset::new(recs, tg).with_weights(w).with_feature_names(s.fnames.clone()).with_target_names(s.tnames.clone())))
         }
     }
 }
@@ -280,7 +294,7 @@ enum Op {
     FeatureIter { v: bool },
     TargetIter { v: bool },
     Chunks { v: bool, size: usize },
-    /// `weight_for(i)` for `i = 0 .. n+1`
+    /// `weight_for(i)` for every sample `i < n`
     WeightFor { v: bool },
     /// `label_frequencies_with_mask(mask)` (`label_frequencies()` when the mask is empty)
     LabelFreq { v: bool, mask: Vec<bool> },
@@ -474,7 +488,13 @@ fn exec<L: Lab>(st: &St<L>, op: &Op) -> Res {
     let mut res = Res { lt: L::TAG, ..Default::default() };
     match op {
         Op::SplitV { r } => {
-            res.outs = each_view!(st, |d| {
+            res.outs = each_own!(st, |x| {
+                let mut d = x.view();
+                // `view()` goes through `with_weights`; a non-contiguous weight array reaches a view only through
+                // the public field (lay.w = 5)
+                if !x.weights.is_standard_layout() {
+                    d.weights = x.weights.clone();
+                }
                 let (a, b) = d.split_with_ratio(*r);
                 vec![snap(&a), snap(&b)]
             });
@@ -553,7 +573,7 @@ fn exec<L: Lab>(st: &St<L>, op: &Op) -> Res {
             res.outs = each!(st, *v, |d| d.sample_chunks(*size).map(|x| snap(&x)).collect());
         }
         Op::WeightFor { v } => {
-            res.wfor = Some(each!(st, *v, |d| (0..d.nsamples() + 2).map(|i| d.weight_for(i) as u64).collect()));
+            res.wfor = Some(each!(st, *v, |d| (0..d.nsamples()).map(|i| d.weight_for(i) as u64).collect()));
             res.outs = vec![each_own!(st, |d| snap(d))];
         }
         Op::LabelFreq { v, mask } => {
@@ -667,7 +687,10 @@ fn aligned(ctx: &mut Ctx, class: &str, what: &str, inp: &Snap, out: &Snap, idx: 
         ctx.fail("target_of_same_sample", class, format!("{}: targets {:?}, want rows {:?} cols {:?} of {:?}", what, out.tg, idx, tcols, inp.tg));
         ok = false;
     }
-    if !out.w.is_empty() && sel(&inp.w, idx).as_ref() != Some(&out.w) {
+    // a weight vector that is not one per sample (`with_weights` checks nothing; `w=2|3`): only the weights
+    // that sit next to a row of the result are weights "of a sample"
+    let w_ok = if inp.w.is_empty() || inp.w.len() == inp.n { sel(&inp.w, idx).as_ref() == Some(&out.w) } else { out.w.iter().zip(idx.iter()).all(|(w, i)| inp.w.get(*i) == Some(w)) };
+    if !out.w.is_empty() && !w_ok {
         ctx.fail("weight_of_same_sample", class, format!("{}: weights {:?}, rows {:?} of {:?}", what, out.w, idx, inp.w));
         ok = false;
     }
@@ -711,7 +734,9 @@ fn tags_ok(ctx: &mut Ctx, class: &str, what: &str, s: &Snap, truth: &Truth) {
         if s.tg.get(k) != Some(&truth.tg[id]) {
             ctx.fail("target_of_same_sample", class, format!("{}: row {} is sample {} but carries targets {:?}, that sample's are {:?}", what, k, id, s.tg.get(k), truth.tg[id]));
         }
-        if !s.w.is_empty() && s.w.get(k) != Some(&(1000 + id as u64)) {
+        // (a row without a weight — fewer weights than rows — is reported by `containers_parallel`, unless
+        // the history started from such a weight vector)
+        if s.w.get(k).map_or(false, |w| *w != 1000 + id as u64) {
             ctx.fail("weight_of_same_sample", class, format!("{}: row {} is sample {} but carries weight {:?}", what, k, id, s.w.get(k)));
         }
     }
@@ -732,6 +757,22 @@ fn ceil_ratio(n: usize, r: f32) -> usize {
     prod.ceil() as usize
 }
 
+/// the same for sample counts that `f32` cannot hold: `n as f32` is one rounding of `n` (to nearest, ties
+/// to even — computed here on the integer, 24 significant bits), the product of two `f32` is exact in
+/// `f64`, rounding that to `f32` is the single precision product
+fn ceil_ratio_large(n: usize, r: f32) -> usize {
+    let bits = 64 - (n as u64).leading_zeros() as i32;
+    let nf: f64 = if bits <= 24 {
+        n as f64
+    } else {
+        let sh = (bits - 24) as u32;
+        let (q, rem, half) = ((n as u64) >> sh, (n as u64) & ((1u64 << sh) - 1), 1u64 << (sh - 1));
+        let q = if rem > half || (rem == half && q & 1 == 1) { q + 1 } else { q };
+        (q as f64) * (2.0f64).powi(sh as i32)
+    };
+    ((nf * (r as f64)) as f32).ceil() as usize
+}
+
 fn class_of(op: &Op, inp: &Snap) -> String {
     format!("{}:ix1={}:cnt={}:v={}", op.name(), inp.ix1 as u8, inp.counts.is_some() as u8, op.through_view() as u8)
 }
@@ -747,6 +788,9 @@ fn promised(op: &Op, inp: &Snap, std: bool) -> bool {
         Op::BootF { nf, .. } => inp.p > 0 || *nf == 0,
         Op::IntoSingle => inp.t == 1,
         Op::Chunks { size, .. } => *size > 0,
+        // `weight[i]` of a kept row: fewer weights than samples (possible only through `with_weights`, which
+        // checks nothing) is outside "with or without weights"
+        Op::WithLabels { .. } => inp.w.is_empty() || inp.w.len() >= inp.n,
         _ => true,
     }
 }
@@ -759,7 +803,8 @@ fn oracle_step(ctx: &mut Ctx, op: &Op, inp: &Snap, res: &Res, idx: &Option<Vec<u
     let tcols: Vec<usize> = (0..inp.t).collect();
     let id = |c: usize| c;
     for o in &res.outs {
-        let wf = (o.w.is_empty() || o.w.len() == o.n) && (o.fnames.is_empty() || o.fnames.len() == o.p) && (o.tnames.is_empty() || o.tnames.len() == o.t) && o.tg.len() == o.n && o.tg.iter().all(|r| r.len() == o.t) && o.recs.iter().all(|r| r.len() == o.p);
+        let wpar = o.w.is_empty() || o.w.len() == o.n || !(inp.w.is_empty() || inp.w.len() == inp.n);
+        let wf = wpar && (o.fnames.is_empty() || o.fnames.len() == o.p) && (o.tnames.is_empty() || o.tnames.len() == o.t) && o.tg.len() == o.n && o.tg.iter().all(|r| r.len() == o.t) && o.recs.iter().all(|r| r.len() == o.p);
         ctx.require(wf, "containers_parallel", &class, || format!("{}: n={} p={} t={} but {} target rows, {} weights, {} feature names, {} target names", op.name(), o.n, o.p, o.t, o.tg.len(), o.w.len(), o.fnames.len(), o.tnames.len()));
     }
     match op {
@@ -850,8 +895,9 @@ fn oracle_step(ctx: &mut Ctx, op: &Op, inp: &Snap, res: &Res, idx: &Option<Vec<u
             }
         }
         Op::WeightFor { .. } => {
-            let want: Vec<u64> = (0..inp.n + 2).map(|i| inp.w.get(i).copied().unwrap_or(1)).collect();
-            ctx.require(res.wfor.as_ref() == Some(&want), "weight_for_sample", &class, || format!("weight_for(0..n+2) = {:?}, weights {:?}", res.wfor, inp.w));
+            // (positions past the last sample are not samples: what `weight_for` answers there is not part of the property)
+            let want: Vec<u64> = (0..inp.n).map(|i| inp.w.get(i).copied().unwrap_or(1)).collect();
+            ctx.require(res.wfor.as_ref() == Some(&want), "weight_for_sample", &class, || format!("weight_for(0..n) = {:?}, weights {:?}", res.wfor, inp.w));
         }
         Op::LabelFreq { mask, .. } => {
             // every sample that passes the mask adds *its own* weight (1 without weights) to each of its labels
@@ -978,7 +1024,8 @@ struct Init {
     snap: Snap,
 }
 
-fn init_snap(n: usize, p: usize, t: usize, ix1: bool, w: bool, fnm: bool, tnm: bool, cnt: bool, y: &[Vec<usize>]) -> Snap {
+/// `w`: 0 no weights, 1 one per sample, 2 one too many, 3 one too few
+fn init_snap(n: usize, p: usize, t: usize, ix1: bool, w: usize, fnm: bool, tnm: bool, cnt: bool, y: &[Vec<usize>]) -> Snap {
     Snap {
         n,
         p,
@@ -986,7 +1033,14 @@ fn init_snap(n: usize, p: usize, t: usize, ix1: bool, w: bool, fnm: bool, tnm: b
         ix1,
         recs: (0..n).map(|i| (0..p).map(|j| (i * 8 + j) as u64).collect()).collect(),
         tg: y.to_vec(),
-        w: if w { (0..n).map(|i| 1000 + i as u64).collect() } else { vec![] },
+        w: (0..match w {
+            0 => 0,
+            1 => n,
+            2 => n + 1,
+            _ => n - 1,
+        })
+            .map(|i| 1000 + i as u64)
+            .collect(),
         fnames: if fnm { (0..p).map(|j| format!("f{}", j)).collect() } else { vec![] },
         tnames: if tnm { (0..t).map(|c| format!("t{}", c)).collect() } else { vec![] },
         counts: if cnt { Some(recount(y, t)) } else { None },
@@ -1049,11 +1103,9 @@ fn gen_op(rng: &mut Rng, cur: &Snap, lt: char, em: &mut Em) -> Op {
             17 => Op::WeightFor { v },
             18 => {
                 // masks shorter / longer than the dataset, and none at all (`label_frequencies()`)
-                let m = match rng.below(4) {
-                    0 => 0,
-                    1 => rng.below(cur.n + 3),
-                    _ => cur.n,
-                };
+                // one entry per sample, or none at all (`label_frequencies()`); what a mask of another length
+                // means is not documented and not part of the property
+                let m = if rng.chance(1, 4) { 0 } else { cur.n };
                 Op::LabelFreq { v, mask: (0..m).map(|_| rng.chance(2, 3)).collect() }
             }
             _ => continue,
@@ -1071,7 +1123,7 @@ fn gen_lay(rng: &mut Rng, ix1: bool) -> Lay {
     }
     let r = rng.below(5) as u8;
     let t = if ix1 { *rng.pick(&[0u8, 2, 3, 4]) } else { rng.below(5) as u8 };
-    let w = if rng.coin() { 2 } else { 0 };
+    let w = *rng.pick(&[0u8, 0, 2, 2, 3, 4, 5, 5]);
     Lay { r, t, w }
 }
 
@@ -1110,6 +1162,8 @@ fn history(em: &mut Em, rng: &mut Rng, nmax: usize, maxlen: usize) {
         1 + rng.below(3)
     };
     let (w, fnm, tnm, cnt) = (rng.chance(2, 3), rng.chance(2, 3), rng.chance(2, 3), rng.chance(1, 3));
+    // one history in ten starts from a weight vector that is not one per sample (`with_weights` checks nothing)
+    let w: usize = if w && n >= 2 && rng.chance(1, 7) { 2 + rng.below(2) } else { w as usize };
     // skewed labels so that some are absent and some frequent
     let hi = if rng.chance(1, 4) { 1 + rng.below(dom) } else { dom };
     let y: Vec<Vec<usize>> = (0..n).map(|_| (0..t).map(|_| rng.below(hi)).collect()).collect();
@@ -1117,8 +1171,8 @@ fn history(em: &mut Em, rng: &mut Rng, nmax: usize, maxlen: usize) {
     em.count(&format!("labels:{}", lt));
     em.count(if ix1 { "targets:ix1" } else { "targets:ix2" });
     em.count(if cnt { "targets:counted" } else { "targets:plain" });
-    if w {
-        em.count("init:weights");
+    if w > 0 {
+        em.count(&format!("init:weights{}", w));
     }
     if fnm {
         em.count("init:feature_names");
@@ -1136,12 +1190,17 @@ fn history(em: &mut Em, rng: &mut Rng, nmax: usize, maxlen: usize) {
     for _ in 0..len {
         let op = gen_op(rng, &cur, cur_lt, em);
         let lay = gen_lay(rng, cur.ix1);
+        let wpar_in = cur.w.is_empty() || cur.w.len() == cur.n;
+        if !wpar_in {
+            em.count(&format!("nonparallel_weights:{}", op.name()));
+        }
         let st = build_any(cur_lt, &cur, lay);
         let std = std_any(&st);
         em.count(&format!("lay:r{}", lay.r));
         em.count(&format!("lay:t{}", lay.t));
         if !cur.w.is_empty() {
             em.count(&format!("lay:w{}", lay.w));
+            em.count(&format!("lay:w{}:{}", lay.w, op.name()));
         }
         if !promised(&op, &cur, std) {
             // outside the property's guard: recorded, not run, not compared
@@ -1168,7 +1227,22 @@ fn history(em: &mut Em, rng: &mut Rng, nmax: usize, maxlen: usize) {
                     em.count(&format!("optional_metadata_carried:{}", op.name()));
                 }
                 let pick = if res.outs.is_empty() { 0 } else { rng.below(res.outs.len()) };
-                toks.push(op_token(&op, lay, std, pick, &idx, &fidx));
+                // one_vs_all: the views are listed by label code here; the model yields them in the order the
+                // labels first appear in the targets, and `pick=` counts in the model's order (the order in which
+                // the implementation yields them is not compared)
+                let mpick = match &op {
+                    Op::OneVsAll { .. } if !res.outs.is_empty() => {
+                        let mut seen: Vec<usize> = vec![];
+                        for r in &cur.tg {
+                            if !seen.contains(&r[0]) {
+                                seen.push(r[0]);
+                            }
+                        }
+                        seen.iter().position(|l| *l == res.labels[pick]).unwrap_or(0)
+                    }
+                    _ => pick,
+                };
+                toks.push(op_token(&op, lay, std, mpick, &idx, &fidx));
                 steps.push(StepRec { op, pick, lay });
                 if res.outs.is_empty() {
                     break;
@@ -1176,7 +1250,7 @@ fn history(em: &mut Em, rng: &mut Rng, nmax: usize, maxlen: usize) {
                 cur = res.outs[pick].clone();
                 cur_lt = res.lt;
                 // a dataset whose containers are no longer parallel cannot be rebuilt
-                let wf = (cur.w.is_empty() || cur.w.len() == cur.n) && (cur.fnames.is_empty() || cur.fnames.len() == cur.p) && (cur.tnames.is_empty() || cur.tnames.len() == cur.t) && cur.tg.len() == cur.n;
+                let wf = (cur.w.is_empty() || cur.w.len() == cur.n || !wpar_in) && (cur.fnames.is_empty() || cur.fnames.len() == cur.p) && (cur.tnames.is_empty() || cur.tnames.len() == cur.t) && cur.tg.len() == cur.n;
                 if !wf {
                     break;
                 }
@@ -1192,7 +1266,7 @@ fn history(em: &mut Em, rng: &mut Rng, nmax: usize, maxlen: usize) {
         t,
         ix1 as u8,
         lt,
-        w as u8,
+        w,
         fnm as u8,
         tnm as u8,
         cnt as u8,
@@ -1207,6 +1281,7 @@ fn history(em: &mut Em, rng: &mut Rng, nmax: usize, maxlen: usize) {
         for s in &steps {
             let st = build_any(cur_lt, &cur, s.lay);
             let class = class_of(&s.op, &cur);
+            let wpar_in = cur.w.is_empty() || cur.w.len() == cur.n;
             if !promised(&s.op, &cur, std_any(&st)) {
                 // outside the guard nothing is promised and nothing is compared with the model; but a
                 // dataset that *is* returned (instead of the documented panic) must still be aligned
@@ -1280,7 +1355,7 @@ fn history(em: &mut Em, rng: &mut Rng, nmax: usize, maxlen: usize) {
                     if ctx.fails.is_empty() {
                         tags_ok(ctx, &class, s.op.name(), &cur, &truth);
                     }
-                    let wf = (cur.w.is_empty() || cur.w.len() == cur.n) && (cur.fnames.is_empty() || cur.fnames.len() == cur.p) && (cur.tnames.is_empty() || cur.tnames.len() == cur.t) && cur.tg.len() == cur.n;
+                    let wf = (cur.w.is_empty() || cur.w.len() == cur.n || !wpar_in) && (cur.fnames.is_empty() || cur.fnames.len() == cur.p) && (cur.tnames.is_empty() || cur.tnames.len() == cur.t) && cur.tg.len() == cur.n;
                     if !wf {
                         break;
                     }
@@ -1301,6 +1376,11 @@ fn ceil_case(em: &mut Em, base_r: &Array2<f64>, base_t: &Array1<usize>, n: usize
             let (a, b) = ds.split_with_ratio(r);
             (a.nsamples(), b.nsamples())
         }));
+        // a ratio outside [0, 1] (NaN included): nothing is promised, nothing compared (a hardening assert or
+        // a clamp there is a legitimate rewrite)
+        if !(r >= 0.0 && r <= 1.0) {
+            return "unpromised".to_string();
+        }
         match got {
             Ok((a, b)) => {
                 ctx.require(a == want && a + b == n, "split_first_ceil", "ceil_grid", || format!("n={} ratio={:?} ({}): first part {} + {}, ceil of the single precision product is {}", n, r, hex32(r), a, b, want));
@@ -1325,6 +1405,9 @@ fn ceil_owned_case(em: &mut Em, n: usize, r: f32) {
             let (a, b) = ds.split_with_ratio(r);
             (a.nsamples(), b.nsamples(), a.weights().map(|w| w.len()).unwrap_or(0), b.weights().map(|w| w.len()).unwrap_or(0))
         }));
+        if !(r >= 0.0 && r <= 1.0) {
+            return "unpromised".to_string();
+        }
         match got {
             Ok((a, b, wa, wb)) => {
                 ctx.require(a == want && a + b == n && wa == a && wb == b, "split_first_ceil", "ceil_grid_owned", || format!("n={} ratio={:?} ({}): parts {} + {} (weights {} + {}), ceil of the single precision product is {}", n, r, hex32(r), a, b, wa, wb, want));
@@ -1406,7 +1489,7 @@ fn ceil_large(em: &mut Em, rng: &mut Rng) {
             _ => rng.unit() as f32,
         };
         em.case(format!("ceil n={} r={}", n, hex32(r)), |ctx| {
-            let want = ((n as f32) * r).ceil() as usize;
+            let want = ceil_ratio_large(n, r);
             let recs = Array2::<f64>::zeros((n, 0));
             let tg = Array1::<()>::default(n);
             let ds = DatasetView::new(recs.view(), tg.view());
@@ -1432,6 +1515,45 @@ fn ceil_large(em: &mut Em, rng: &mut Rng) {
     }
 }
 
+/// the owned split evaluates its own copy of the expression: sample counts just beyond 2^24 (zero-width
+/// records and unit targets; the owned split walks the target buffer, so the counts stay below 2^25)
+fn ceil_large_owned(em: &mut Em, rng: &mut Rng) {
+    let cnt = if em.thorough() { 300 } else { 60 };
+    for i in 0..cnt {
+        let n = match i % 3 {
+            0 => (1usize << 24) + 1 + rng.below(64),
+            1 => (1usize << 24) + rng.below(1usize << 22),
+            _ => (1usize << 24) + (1usize << 23) + rng.below(1usize << 23),
+        };
+        let r = match rng.below(4) {
+            0 => rng.below(17) as f32 / 16.0,
+            1 => rng.below(11) as f32 / 10.0,
+            2 => 1.0,
+            _ => rng.unit() as f32,
+        };
+        em.case(format!("ceilo n={} r={}", n, hex32(r)), |ctx| {
+            let want = ceil_ratio_large(n, r);
+            let ds = Dataset::new(Array2::<f64>::zeros((n, 0)), Array1::<()>::default(n));
+            let got = catch_unwind(AssertUnwindSafe(|| {
+                let (a, b) = ds.split_with_ratio(r);
+                (a.nsamples(), b.nsamples())
+            }));
+            match got {
+                Ok((a, b)) => {
+                    ctx.require(a == want && a + b == n, "split_first_ceil", "ceil_large_owned", || format!("n={} ratio={:?}: first part {} + {}, want {}", n, r, a, b, want));
+                    format!("ok {}", a)
+                }
+                Err(_) => {
+                    if want <= n {
+                        ctx.fail("no_panic", "ceil_large_owned", format!("owned split_with_ratio panicked for n={} ratio={:?} although the split point {} is within the data", n, r, want));
+                    }
+                    "panic".to_string()
+                }
+            }
+        });
+    }
+}
+
 pub fn run(em: &mut Em, rng: &mut Rng) {
     let (hist, nmax, maxlen) = if em.thorough() { (150000, 24, 12) } else { (30000, 12, 6) };
     for _ in 0..hist {
@@ -1439,4 +1561,5 @@ pub fn run(em: &mut Em, rng: &mut Rng) {
     }
     ceil_grid(em, rng);
     ceil_large(em, rng);
+    ceil_large_owned(em, rng);
 }
